@@ -1,4 +1,9 @@
 // Contract overlay for unit `sources`
+//@ item Event::is_empty
+//@ header
+    pub fn is_empty(&self) -> (r: bool)
+        // an event is "empty" (and so by-passes the filterer in throttle_collect: unit worker's stand-in) exactly when it has no tags
+        ensures r == (self.tags@.len() == 0), // OBL:C01.event.empty_means_no_tags
 //@ item Priority
 //@ item Source
 //@ item Keyboard
